@@ -470,13 +470,13 @@ private theorem deserUnits_showQ (P : Pint) (m u : String) (h : QOk P m u) :
   · obtain ⟨_, hn, hp⟩ := h
     unfold deserUnits
     simp [startsWithNan_showQ m u hn, hp]
-  · obtain ⟨rfl, hnorm, hstrip, m', hp⟩ := h
+  · obtain ⟨rfl, hnorm, m', hp⟩ := h
     unfold deserUnits
     have h1 : startsWithNan (showQ "nan" u).toList = true := by
       rw [nan_showQ_toList]; simp [startsWithNan, stripPrefix?]
-    have h2 : (showQ "nan" u).toList.drop 3 = ' ' :: u.toList := by
+    have h2 : (showQ "nan" u).toList.drop 3 = ' ' :: showTail u := by
       rw [nan_showQ_toList]; rfl
-    simp [h1, h2, hstrip, String.ofList_toList, hp, nanTimes, hnorm]
+    simp [h1, h2, hp, nanTimes, hnorm]
 
 private theorem deser_quantityStr (P : Pint) (m u : String) (h : QOk P m u) :
     deserialize P (.str (quantityStr m u)) = .ok (.quantity (P.norm m u) u) := by
@@ -592,8 +592,8 @@ numpy scalars as Python scalars, a unit `u` as the quantity `1 u`, non-finite *p
 as `None`, processes / functions as their tagged strings (no deserializer exists) and each
 magnitude as pint re-reads it (`P.norm m u`, numerically `m`) — **under** `RTOk P v`:
 (a) no string leaf matches the reserved `!units[...]` pattern, (b) for every quantity the pint
-hypotheses `QOk` (`units(str(q))` is `q`; no newline in `str(q)`; a nan magnitude prints as
-`nan` and the unit string has no surrounding blanks), (c) for every bare unit `UOk`
+hypotheses `QOk` (`units(str(q))` is `q`; no newline in `str(q)`; for a nan magnitude `units` of
+what follows `nan` is a quantity in the same unit — `QOk_nan_of_unit`), (c) for every bare unit `UOk`
 (`units(str(u))` is `1 u`) **and its name does not start with `nan`**.
 
 Missing for the full statement: (b)/(c) are facts about pint's `str` and `parse_expression`,
@@ -610,13 +610,14 @@ theorem token_pint_ok :
     QOk Pint.token "5" "femtogram" ∧ QOk Pint.token "nan" "femtogram" ∧
     QOk Pint.token "-inf" "gram / liter ** 2" ∧ QOk Pint.token "1e+22" "millimole / gram / hour" ∧
     QOk Pint.token "3" "count / femtoliter" ∧ UOk Pint.token "millimole / gram / hour" ∧
-    UOk Pint.token "femtogram" := by
+    UOk Pint.token "femtogram" ∧ QOk Pint.token "5" "1 / second" ∧ UOk Pint.token "1 / second" := by
   refine ⟨⟨by decide, Or.inl ⟨by decide, by decide, by rfl⟩⟩,
-          ⟨by decide, Or.inr ⟨rfl, by rfl, by decide, ⟨"1", by rfl⟩⟩⟩,
+          QOk_nan_of_unit Pint.token "femtogram" "1" (by decide) (by decide) (by decide) (by rfl) (by rfl),
           ⟨by decide, Or.inl ⟨by decide, by decide, by rfl⟩⟩,
           ⟨by decide, Or.inl ⟨by decide, by decide, by rfl⟩⟩,
           ⟨by decide, Or.inl ⟨by decide, by decide, by rfl⟩⟩,
-          ⟨by decide, by decide, by rfl⟩, ⟨by decide, by decide, by rfl⟩⟩
+          ⟨by decide, by decide, by rfl⟩, ⟨by decide, by decide, by rfl⟩,
+          ⟨by decide, Or.inl ⟨by decide, by decide, by rfl⟩⟩, ⟨by decide, by decide, by rfl⟩⟩
 
 example :
     let v := PVal.dict [(.str "a", .tuple [.quantity "nan" "femtogram", .unit "femtogram",
@@ -629,7 +630,7 @@ example :
              (.str "b", .str "!units[")])) := by
   refine ⟨?_, by rfl⟩
   simp only [RTOk, RTOkKVs, RTOkList, List.mem_singleton, forall_eq]
-  refine ⟨⟨token_pint_ok.2.1, token_pint_ok.2.2.2.2.2.2, ⟨trivial, trivial, trivial⟩,
+  refine ⟨⟨token_pint_ok.2.1, token_pint_ok.2.2.2.2.2.2.1, ⟨trivial, trivial, trivial⟩,
     token_pint_ok.1, trivial⟩, by decide, trivial⟩
 
 /-- **A bare unit whose name starts with `nan` does not round-trip** (`nanometer`, `nanogram`,
@@ -651,6 +652,28 @@ theorem bare_unit_nan_prefix_fails (P : Pint) (u : String) (hnl : NoNL u)
 
 example : String.ofList (pyStripL ("nanometer".toList.drop 3)) = "ometer" ∧
     deserialize Pint.token (.str (tagUnits "nanometer")) = .ok (.quantity "nan" "ometer") := by
+  constructor <;> rfl
+
+/-- **A nan magnitude with a unit printed `1 / x` does not round-trip** (candidate finding B):
+`str(q)` is `nan / x`, the leading `nan` is cut off and, for EVERY pint, the result is computed
+from `units("/ x")` — which the real pint refuses (`DefinitionSyntaxError`). -/
+theorem nan_reciprocal_unit_fails (P : Pint) (u : String) (rest : List Char)
+    (hu : stripPrefix? recipPrefix u.toList = some rest) (hnl : NoNL (showQ "nan" u)) :
+    deserialize P (.str (quantityStr "nan" u)) =
+      (match P.parse (String.ofList (pyStripL (' ' :: '/' :: ' ' :: rest))) with
+       | .ok r => .ok (nanTimes r)
+       | .error e => .error e) := by
+  simp only [deserialize, tagContent_quantityStr "nan" u hnl]
+  unfold deserUnits
+  have h1 : startsWithNan (showQ "nan" u).toList = true := by
+    rw [nan_showQ_toList]; simp [startsWithNan, stripPrefix?]
+  have h2 : (showQ "nan" u).toList.drop 3 = ' ' :: '/' :: ' ' :: rest := by
+    rw [nan_showQ_toList]; simp [showTail, hu]
+  simp only [h1, if_true, h2]
+  cases P.parse (String.ofList (pyStripL (' ' :: '/' :: ' ' :: rest))) <;> rfl
+
+example : serialize (.quantity "nan" "1 / second") = .ok (.str "!units[nan / second]") ∧
+    String.ofList (pyStripL (' ' :: '/' :: ' ' :: "second".toList)) = "/ second" := by
   constructor <;> rfl
 
 /-! ## plain data -/
